@@ -9,7 +9,7 @@ the induction hypothesis, justified by a size-change check).  Anything the inter
 understand raises Undecidable, which the property checks report as a violation (fail closed)."""
 
 from logic import *
-from facts import canon, walk, pp, pp_pat
+from facts import canon, walk, pp, pp_pat, callee_name
 
 class Undecidable(Exception):
     def __init__(self, construct, loc='?'):
@@ -768,6 +768,23 @@ class Interp:
         fp = self.for_parts(e)
         if fp is not None: return self.ev_for(e, fp, env)
         v = self.ev(e['scrutinee'], env)
+        if isinstance(v, VCons) and v.adt == 'CLAMPABLE':
+            # `match T::try_from(x) { Ok(b) => b.., Err(_) => d }`: the written-out form of try_from(x).unwrap_or(d).  As there: the identity on x,
+            # justified only if the replacement d is at least 2^63-1 (recorded as a clamp / clamp_bad event, judged by the specification)
+            oks = []; errs = []
+            for arm in e['arms']:
+                q = arm['pat']
+                while q['k'] in ('Deref', 'DerefPattern', 'AscribeUserType'): q = q.get('sub') or q.get('subpattern')
+                if arm['guard'] is None and q['k'] == 'Variant' and q['variant'] == 'Ok' and len(q['subs']) == 1: oks.append((arm, q))
+                elif arm['guard'] is None and ((q['k'] == 'Variant' and q['variant'] == 'Err') or q['k'] == 'Wild'): errs.append(arm)
+            if len(oks) == 1 and len(errs) == 1 and len(e['arms']) == 2 and e['arms'][0] is oks[0][0]:
+                d = self.ev(errs[0]['body'], dict(env))
+                ok = isinstance(d, VInt) and d.lin.is_const() and d.lin.k >= 2**63 - 1
+                self.events.append(('clamp' if ok else 'clamp_bad', repr(d), e['loc']))
+                env2 = dict(env)
+                if not self.match(oks[0][1]['subs'][0]['pat'], v.fields[0], env2): raise Undecidable('payload pattern of the conversion', e['loc'])
+                return self.ev(oks[0][0]['body'], env2)
+            raise Undecidable('match on a fallible integer conversion', e['loc'])
         for arm in e['arms']:
             env2 = dict(env)
             if self.match(arm['pat'], v, env2):
@@ -821,10 +838,60 @@ class Interp:
                 if op == 'Sub': env[l['var']] = VInt(cur.lin - r.lin); return UNIT
         raise Undecidable('compound assignment', e['loc'])
 
+    def pop_loop_parts(self, e, env):
+        """`while let Some(PAT) = V.pop() { BODY }` with V a local list the body does not mention -> (V, PAT, BODY) or None"""
+        b = e['body']
+        while b['k'] in ('Use', 'NeverToAny') or (b['k'] == 'Block' and not b['stmts'] and b.get('expr') is not None): b = b['source'] if b['k'] != 'Block' else b['expr']
+        if b['k'] != 'If' or b.get('else') is None: return None
+        c = b['cond']
+        while c['k'] in ('Use',): c = c['source']
+        if c['k'] != 'Let': return None
+        el = b['else']
+        for _ in range(8):
+            if el['k'] in ('Use', 'NeverToAny'): el = el['source']
+            elif el['k'] == 'Block' and not el['stmts'] and el.get('expr') is not None: el = el['expr']
+            elif el['k'] == 'Block' and len(el['stmts']) == 1 and el.get('expr') is None and el['stmts'][0]['k'] == 'Expr': el = el['stmts'][0]['expr']
+            else: break
+        if el['k'] != 'Break' or el.get('value') is not None: return None
+        p = c['pat']
+        while p['k'] in ('Deref', 'DerefPattern'): p = p['sub']
+        if not (p['k'] == 'Variant' and p['variant'] == 'Some' and len(p['subs']) == 1): return None
+        src = c['expr']
+        while src['k'] in ('Use',): src = src['source']
+        if not (src['k'] == 'Call' and callee_name(src) == 'std::vec::Vec::pop' and len(src['args']) == 1): return None
+        r = src['args'][0]
+        while r['k'] in ('Use', 'Borrow', 'Deref'): r = r.get('source') or r.get('arg')
+        if r['k'] != 'VarRef' or r['var'] not in env: return None
+        if any(x['k'] in ('VarRef', 'UpvarRef') and x.get('var') == r['var'] for x in walk(b['then'])): return None
+        return r['var'], p['subs'][0]['pat'], b['then']
+
     def ev_Loop(self, e, env):
         """One symbolic iteration from a havoc'd state (only when the function's spec asks for it): variables assigned in the
         loop body get fresh symbols; the iteration either breaks (execution continues after the loop) or completes, which
         ends the world with a record of the next state."""
+        wl = self.pop_loop_parts(e, env)
+        if wl is not None:
+            # `while let Some(x) = list.pop() { acc = f(x, acc) }`: a fold over the list taken from the back - the for-loop reading over list.into_iter().rev()
+            lv, pat, body = wl
+            it = self.E.std['std::iter::Iterator::rev'](self, [self.E.std['std::iter::IntoIterator::into_iter'](self, [env[lv]], e, None)], e, None)
+            assigned = set()
+            for x in walk(body):
+                if x['k'] in ('Assign', 'AssignOp'):
+                    if x['lhs']['k'] != 'VarRef': raise Undecidable('loop assigning to something other than a local variable', e['loc'])
+                    if x['lhs']['var'] in env: assigned.add(x['lhs']['var'])
+                if x['k'] in ('Break', 'Continue', 'Return') or (x['k'] == 'Match' and 'TryDesugar' in str(x.get('source'))):
+                    raise Undecidable('loop with an early exit', e['loc'])
+            if len(assigned) != 1: raise Undecidable('loop carrying %d variables (only single-accumulator loops are analysed)' % len(assigned), e['loc'])
+            acc = next(iter(assigned))
+            if not isinstance(env.get(acc), VBdd): raise Undecidable('loop-carried variable %s is not a diagram' % acc, e['loc'])
+            def step(a, x):
+                env2 = dict(env); env2[acc] = a
+                if not self.match(pat, x, env2): raise Undecidable('refutable loop pattern', e['loc'])
+                self.ev(body, env2)
+                return env2[acc]
+            env[acc] = self.E.std['__fold_core__'](self, it, env[acc], step, e['loc'], body)
+            del env[lv]                      # emptied by the loop: not to be read again
+            return UNIT
         if not getattr(self, 'loop_mode', False):
             raise Undecidable('loop', e['loc'])
         if getattr(self, 'in_loop', False): raise Undecidable('nested loop', e['loc'])
